@@ -238,7 +238,7 @@ inline void install_death(const Args &a) {
 // microseconds to milliseconds: 30 s of CPU time inside one call is not "work linear in the input" by any reading.
 #ifdef VF_HAVE_DEATH_CB
 inline const volatile uint64_t *&wd_progress() { static const volatile uint64_t *p = nullptr; return p; }
-inline void wd_tick(int) {
+__attribute__((no_sanitize("address", "undefined"))) inline void wd_tick(int) {
     static uint64_t last = ~(uint64_t) 0; static int idle = 0;
     const volatile uint64_t *p = wd_progress(); if (!p) return;
     if (*p == last) { if (++idle >= 3) { on_death(); static const char m[] = "WATCHDOG: no evaluation finished within three CPU-time ticks\n"; if (write(2, m, sizeof m - 1)) {} _exit(78); } }
@@ -249,9 +249,17 @@ inline void install_watchdog(const uint64_t *progress, int tick_s) {
     struct sigaction sa; memset(&sa, 0, sizeof sa); sa.sa_handler = wd_tick; sa.sa_flags = SA_RESTART; sigaction(SIGPROF, &sa, nullptr);
     struct itimerval it; it.it_interval.tv_sec = tick_s; it.it_interval.tv_usec = 0; it.it_value = it.it_interval; setitimer(ITIMER_PROF, &it, nullptr);
 }
+// The counter lives in main's Run object: the timer must be off before that object dies (and before the sanitizers'
+// exit-time work, during which a report raised from a signal handler would deadlock the process).
+inline void stop_watchdog() {
+    struct itimerval it; memset(&it, 0, sizeof it); setitimer(ITIMER_PROF, &it, nullptr);
+    signal(SIGPROF, SIG_IGN); wd_progress() = nullptr;
+}
 #else
 inline void install_watchdog(const uint64_t *, int) {}
+inline void stop_watchdog() {}
 #endif
+struct WatchdogGuard { ~WatchdogGuard() { stop_watchdog(); } };
 
 // exit codes of a harness process: 0 ok, 3 oracle failure(s) recorded, 2 infra / health
 inline int finish(Run &R) {
@@ -330,7 +338,7 @@ inline int std_main(int argc, char **argv, const char *pid, const std::map<std::
     Run R; R.a = parse_args(argc, argv); R.prop = pid;
     install_death(R.a);
     inflight() = infl;
-    install_watchdog(&R.evaluations, R.a.stage == "huge" || R.a.stage == "stack" ? 60 : 10);
+    WatchdogGuard wdg; install_watchdog(&R.evaluations, R.a.stage == "huge" || R.a.stage == "stack" ? 60 : 10);
     if (init && !init(R)) { fprintf(stderr, "%s: harness initialisation failed\n", pid); return 2; }
     int rcode;
     if (!R.a.replay.empty()) {
